@@ -27,6 +27,8 @@ LEVEL = 'exploration'
 BUDGET = {'quick': 75, 'thorough': 700}
 # deterministic sub-checks repeated in a `python -O` child (core.optimized_child)
 OPT_SUBS = ('mbr', 'qcow2grid', 'sweeps', 'checkfault')
+# documented call interface the generated calls rely on (vcheck/callstyle.py)
+INTERFACE = [('oslo_utils.imageutils.format_inspector', None)]
 RULE = ('exhaustive finite families: all 15^4 MBR tables over per-entry '
         'classes {empty, data, protective ok / bad CHS / bad LBA} x boot flag '
         '{0x00, 0x80, other}; qcow2 version x each single feature bit x '
@@ -203,6 +205,23 @@ def sweeps(col):
             for pos in (1, 5, len(base)):
                 lines = base[:pos] + [bad] + base[pos:]
                 run('vmdk', dict(lines=lines, footer=footer), 'vmdk-line')
+        # the same unsafe lines deep inside a descriptor of several
+        # sectors (comment lines in front push them to byte ~600, ~1100,
+        # ~3600 and ~9000 of the descriptor area), and required lines there
+        filler = ['# filler line %03d ..............................' % i
+                  for i in range(200)]
+        for k in (12, 22, 72, 180):
+            for _t, bad in imgstrat.VMDK_UNSAFE_LINES[::3]:
+                lines = base[:1] + filler[:k] + [bad] + base[1:]
+                run('vmdk', dict(lines=lines, footer=footer), 'vmdk-deep')
+                lines = base + filler[:k] + [bad]
+                run('vmdk', dict(lines=lines, footer=footer), 'vmdk-deep')
+            # well-formed, with createType / the extent line far down
+            lines = base[:1] + filler[:k] + base[1:]
+            run('vmdk', dict(lines=lines, footer=footer), 'vmdk-deep')
+            lines = [ln for ln in base if not ln.startswith('createType')]
+            lines = lines[:1] + filler[:k] + lines[1:]
+            run('vmdk', dict(lines=lines, footer=footer), 'vmdk-deep')
         lines = [ln for ln in base if not ln.startswith('RW ')]
         run('vmdk', dict(lines=lines, footer=footer), 'vmdk-noextent')
         for ver in (0, 1, 2, 3, 4, 2 ** 32 - 1):
@@ -246,6 +265,18 @@ def sweeps(col):
     for fmt in ('raw', 'vhd', 'vdi', 'iso', 'vhdx', 'gpt', 'qcow2', 'luks',
                 'vmdk'):
         run(fmt, {}, 'default-clean')
+    # descriptor layouts: exact fill of its sectors, no final newline, the
+    # createType line last - alone and with an unsafe line
+    for ef in (False, True):
+        for fn in (False, True):
+            for tl in (False, True):
+                for footer in (False, True):
+                    lay = dict(exact_fill=ef, final_newline=fn, type_last=tl,
+                               footer=footer)
+                    run('vmdk', lay, 'vmdk-layout')
+                    for _t, bad in imgstrat.VMDK_UNSAFE_LINES[::4]:
+                        run('vmdk', dict(lay, lines=base + [bad]),
+                            'vmdk-layout')
     col.exhaustive.setdefault(sub, True)
 
 
